@@ -30,6 +30,15 @@ def pyval(v):
             return object()
         elif k == '$set':
             return set(pyval(i) for i in x)
+        elif k == '$nest':
+            # a list nested that many levels deep (built without recursion;
+            # written out, the scenario itself would be that deep)
+            out = [1]
+
+            for _ in range(int(x)):
+                out = [out]
+
+            return out
         elif k == '$intkeys':
             # a dict whose keys are ints (JSON cannot say that)
             return {int(kk): pyval(vv) for kk, vv in x.items()}
